@@ -106,6 +106,7 @@ def tok_case(draw, maxmax=8, maxlen=64, init="any", kinds=("obj", "char", "bytes
             "pat": draw(pattern(p, 24)),
             "how": draw(st.one_of(st.just("list"), st.tuples(st.just("gen"), st.integers(0, 2)).map(list),
                                   st.just(["two_gens"]),
+                                  st.tuples(st.just("raise"), st.integers(0, 20), st.sampled_from(["list", "gen"])).map(list),
                                   st.tuples(st.just("close_mid"), st.integers(0, 2), st.integers(0, 2)).map(list))),
         }
     return case
